@@ -93,6 +93,8 @@ def prepare(pid=None):
                 if os.path.exists(tmp):
                     os.remove(tmp)
                 continue
+            if out.strip():
+                st.setdefault("translator_warnings", {})[tool] = out.strip()[-1500:]
             replace_if_changed(tmp, dst)
         # Coq: every source file of the development must be part of the project
         listed = set(l.strip() for l in open(os.path.join(COQ, "_CoqProject")) if l.strip().endswith(".v"))
@@ -279,8 +281,9 @@ def main(argv):
         if ef:
             m = re.search(r"line (\d+)", emsg)
             thm = enclosing_statement(ef, int(m.group(1))) if m else None
+        warn = "; ".join("%s: %s" % kv for kv in st.get("translator_warnings", {}).items())
         problems.append({"kind": "proof", "name": "%s%s" % (ef or missing[0], (" : " + thm) if thm else ""),
-                         "detail": emsg or ("not built: " + ", ".join(missing))})
+                         "detail": (emsg or ("not built: " + ", ".join(missing))) + ((" [translator: " + warn + "]") if warn else "")})
     bad = forbidden_scan()
     if bad:
         problems.append({"kind": "proof", "name": "forbidden construct", "detail": "; ".join(bad)})
